@@ -538,13 +538,21 @@ func (p *Prog) frameObligations0(prop string) []*Obligation {
 			if rs, isRange := ranges[id]; isRange {
 				ok, why = p.mapRangeCommutes(p.Funcs[fn], rs)
 			}
+			if strings.HasPrefix(id, "fmtaddr:field:") {
+				ok, why = p.deadPointerFormat(id)
+				if !ok && why != "" {
+					why = "not a dead format: " + why
+				}
+			}
 			if !ok {
 				if j, allowed := allow[id]; allowed {
 					ok, why = true, "allowed: "+j
 				}
 			}
 			detail := why
-			if !ok {
+			if !ok && why != "" {
+				detail = why
+			} else if !ok {
 				detail = "order / value sensitive source of nondeterminism reachable from an entry point, not covered by a commutation pattern or the allow-list"
 			}
 			obls = append(obls, analysisObl("det:"+id, "det", tags, ok, "nondeterminism source is justified (commuting map-range body, or listed with its justification in spec/c06_allowed_nondeterminism.txt)", "", detail, fn))
